@@ -41,6 +41,15 @@ def run(repo, run, tier):
     # however many pieces one step adds (a Richardson step adds one per sub-step)
     from .c09 import balance_rule
     balance_rule(repo, run, "C19.12", want="all")
+    # ... and a reset() leaves no knot of the previous run behind: the dense output is re-created, not emptied piecemeal
+    from ..report import Rejudged
+    from ..access import ClassModel
+    from .c13 import completeness, values
+    rj = Rejudged(run, {"C13.1": "C19.13", "C13.2": "C19.13"}, note="re-judged for C19: time lookups after reset() bisect the knots of the new run only")
+    cm = ClassModel(repo, DS, "OdeSystem")
+    completeness(repo, rj, cm)
+    values(repo, rj, cm)
+    rj.finish_rejudge()
 
 
 
